@@ -587,9 +587,30 @@ class Engine:
     async def do_leave(self, cmd: dict[str, Any]) -> None:
         cid = cmd["cid"]
         a = self.actors[cid]
+        mc = self.model.ctxs[cid]
+        ctx = self.ctx_objs[cid]
+        # the last callback registered runs first: while the context is being torn down every pair still resolves to the object
+        # it resolved to before (lookups are allowed until the teardown is over)
+        during_teardown: dict[Any, Any] = {}
+
+        def lookups_during_teardown() -> None:
+            for (t, name), res in list(mc.resources.items()):
+                try:
+                    during_teardown[(t, name)] = ("ok", ctx.get_resource_nowait(POOL[t], name, optional=True))
+                except Exception as e:  # noqa: BLE001
+                    during_teardown[(t, name)] = ("exc", e)
+
+        ctx.add_teardown_callback(lookups_during_teardown)
         await a.send.send((None, None))
         await a.left.wait()
-        mc = self.model.ctxs[cid]
+        for (t, name), (kind, got) in during_teardown.items():
+            tag = mc.resources[(t, name)].tag
+            self.inc("lookups_during_teardown")
+            if tag in self.objs and (kind != "ok" or got is not self.objs[tag]):
+                what = describe_exc(got) if kind == "exc" else (self.tagname(got) if got is not None and id(got) in self.tag_of else repr(got))
+                self.bad("singleton-different-object" if isinstance(tag, tuple) and tag[0] == "gen" else "scope-wrong-object",
+                         f"{cmd}: while context {cid} was being torn down, ({tname(POOL[t])}, {name!r}) resolved to {what}; before that it resolved to {tag}")
+                break
         mc.state = "closed"
         if mc.parent is not None:
             self.model.ctxs[mc.parent].open_children.discard(cid)
